@@ -346,3 +346,176 @@ Theorem c18_reload_discards_unsaved_edits : forall st h1 h2,
               mem st' = mem st /\ f_conf (disk st') = Some (save_bytes (mem st)).
 Proof. exact save_edit_load. Qed.
 Print Assumptions c18_reload_discards_unsaved_edits.
+
+(* ======================================================================== extension round *)
+From C18 Require Import GenNum GenStr ProofsGrammar ProofsDevices ProofsHistory2.
+
+(* The constants and string literals typed into the model are the ones in the repository: GenNum.v
+   is printed by a program compiled against the headers, GenStr.v is cut out of the source text of
+   DeviceManager.cpp, UniverseStore.cpp, Universe.cpp, Preferences.cpp and StringUtils.cpp, both on
+   every run.  (Modes: the model writes 1 for PRIORITY_MODE_STATIC, 0 for PRIORITY_MODE_INHERIT and
+   restores "inherit" on 0; new ports start at priority 100.) *)
+Theorem c18_consts :
+  (SOURCE_PRIORITY_MAX, UINT8_MAX, UINT32_MAX, p_prio (fresh_like {| p_cap := CapFull; p_uni := None; p_prio := 0; p_static := true |} true))
+    = (G_SOURCE_PRIORITY_MAX, G_UINT8_MAX, G_UINT32_MAX, G_SOURCE_PRIORITY_DEFAULT) /\
+  (G_PRIORITY_MODE_INHERIT, G_PRIORITY_MODE_STATIC, G_SIZEOF_UNSIGNED_INT) = (0, 1, 4) /\
+  (s_pval, s_pmode, s_uni, s_name, s_merge) = (G_s_pval, G_s_pmode, G_s_uni, G_s_name, G_s_merge) /\
+  (s_HTP, s_HTP, s_LTP, s_Universe) = (G_s_HTP, G_s_HTP_restore, G_s_LTP, G_s_Universe) /\
+  ([SPC; EQC; SPC], [HASH], [EQC]) = (G_separator, G_comment_char, G_split_char) /\
+  (forall c, is_blank c = existsb (N.eqb c) G_trim_chars).
+Proof.
+  repeat split. intros c. unfold is_blank, G_trim_chars. cbn [existsb]. rewrite orb_false_r, !orb_assoc. reflexivity.
+Qed.
+Print Assumptions c18_consts.
+
+(* The line grammar as an iff.  Whatever bytes the loader reads, it builds a well-ordered multimap
+   whose entries all meet the side conditions (c18_loader_output_admissible); therefore a store is
+   read back identically after save and load EXACTLY when its entries meet them (and it is a
+   well-ordered multimap, which every store is): no inadmissible key or value - leading or trailing
+   blank, '=' in the key, '#' first in the key, embedded newline - ever round-trips. *)
+Theorem c18_loader_output_admissible : forall bs : str,
+  sorted (load_bytes bs) /\ Forall (fun e => key_ok (fst e) /\ val_ok (snd e)) (load_bytes bs).
+Proof. intros bs. split; [apply sorted_load_bytes|apply map_ok_load_bytes]. Qed.
+Print Assumptions c18_loader_output_admissible.
+
+Theorem c18_roundtrip_iff : forall m : pmap,
+  load_bytes (save_bytes m) = m <-> sorted m /\ Forall (fun e => key_ok (fst e) /\ val_ok (snd e)) m.
+Proof. exact roundtrip_iff. Qed.
+Print Assumptions c18_roundtrip_iff.
+
+Theorem c18_roundtrip_iff_entry : forall k v : str,
+  load_bytes (save_bytes [(k, v)]) = [(k, v)] <-> key_ok k /\ val_ok v.
+Proof. exact roundtrip_iff_entry. Qed.
+Print Assumptions c18_roundtrip_iff_entry.
+
+(* What becomes of an entry whose key starts with '#': it is written and read back as a comment -
+   it vanishes, the rest of the store is read as if it had never been there. *)
+Theorem c18_hash_key_vanishes : forall m1 m2 k' v,
+  map_ok m1 -> ~ In NL k' -> ~ In NL v ->
+  load_bytes (save_bytes (m1 ++ (HASH :: k', v) :: m2)) = load_bytes (save_bytes (m1 ++ m2)).
+Proof. exact hash_key_entry_vanishes. Qed.
+Print Assumptions c18_hash_key_vanishes.
+
+(* Universe histories.  Keys of different universes never collide (every id below 10^20, so every
+   unsigned int incl. those from 2^31 up); after ANY sequence of universe teardowns - each writing
+   name and merge mode - saved and loaded by a new process, universe `id` gets back exactly what its
+   last teardown wrote (any admissible non-empty name incl. '=' and '#', either merge mode),
+   whatever was torn down before and after. *)
+Theorem c18_universe_keys_distinct : forall id1 id2 s1 s2,
+  id1 < 10 ^ 20 -> id2 < 10 ^ 20 ->
+  (s1 = s_name \/ s1 = s_merge) -> (s2 = s_name \/ s2 = s_merge) ->
+  uni_key id1 s1 = uni_key id2 s2 -> id1 = id2 /\ s1 = s2.
+Proof. exact uni_key_inj. Qed.
+Print Assumptions c18_universe_keys_distinct.
+
+Theorem c18_universe_history : forall id u l1 l2 m,
+  sorted m -> map_ok m ->
+  Forall (fun e => val_ok (u_name (snd e))) (l1 ++ (id, u) :: l2) ->
+  id < 10 ^ 20 -> Forall (fun e => fst e < 10 ^ 20 /\ fst e <> id) l2 ->
+  u_name u <> [] ->
+  restore_universe id (load_bytes (save_bytes (teardown_all (l1 ++ (id, u) :: l2) m))) = u.
+Proof. exact universe_history. Qed.
+Print Assumptions c18_universe_history.
+
+(* Device histories.  Port::UniqueId() is injective in (plugin id, device id, direction, port id)
+   and the three keys of different ports never collide; the port settings file only ever holds
+   numbers (invariant from the empty store, replaces the stale-mode hypothesis of c18_port).
+   After ANY sequence of port releases - devices disappearing in any order, any number of times -
+   saved and loaded by a new process, a re-registered port gets back what its LAST release wrote:
+   the patch for every capability, the priority for STATIC-only and for FULL ports, the mode for
+   FULL ports; input and output ports alike. *)
+Theorem c18_port_keys_distinct : forall p1 d1 i1 n1 p2 d2 i2 n2,
+  p1 < 10 ^ 20 -> p2 < 10 ^ 20 -> n1 < 10 ^ 20 -> n2 < 10 ^ 20 ->
+  (port_key p1 d1 i1 n1 = port_key p2 d2 i2 n2 -> p1 = p2 /\ d1 = d2 /\ i1 = i2 /\ n1 = n2) /\
+  ((p1, d1, i1, n1) <> (p2, d2, i2, n2) ->
+   forall sa sb, In sa [[]; s_pval; s_pmode] -> In sb [[]; s_pval; s_pmode] ->
+                 port_key p1 d1 i1 n1 ++ sa <> port_key p2 d2 i2 n2 ++ sb).
+Proof.
+  intros p1 d1 i1 n1 p2 d2 i2 n2 B1 B2 B3 B4. split.
+  - apply port_key_inj; assumption.
+  - intros H. exact (port_keys_indep p1 d1 i1 n1 p2 d2 i2 n2 B1 B2 B3 B4 H).
+Qed.
+Print Assumptions c18_port_keys_distinct.
+
+Theorem c18_device_history : forall (r : rel) (l1 l2 : list rel) (m : pmap) (static0 : bool),
+  sorted m -> map_ok m -> numeric_store m ->
+  Forall rel_ok (l1 ++ r :: l2) -> Forall (fun x => ~ same_port r x) l2 ->
+  exists q, restore_port (rel_key r) (load_bytes (save_bytes (release_all (l1 ++ r :: l2) m)))
+                         (fresh_like (r_settings r) static0) = RPort q /\
+            p_cap q = p_cap (r_settings r) /\ p_uni q = p_uni (r_settings r) /\
+            match p_cap (r_settings r) with
+            | CapNone => True
+            | CapStatic => p_prio q = p_prio (r_settings r)
+            | CapFull => p_prio q = p_prio (r_settings r) /\ p_static q = p_static (r_settings r)
+            end.
+Proof. exact device_history. Qed.
+Print Assumptions c18_device_history.
+
+Example c18_device_history_hypotheses_satisfiable :
+  numeric_store [] /\ sorted [] /\ map_ok [] /\
+  rel_ok {| r_plugin := 2; r_device := [100; 101; 118; 45; 49]; r_input := true; r_port := 1;
+            r_settings := {| p_cap := CapStatic; p_uni := Some 2147483648; p_prio := 42; p_static := true |} |} /\
+  rel_ok {| r_plugin := 2; r_device := [100; 101; 118; 45; 49]; r_input := false; r_port := 1;
+            r_settings := {| p_cap := CapFull; p_uni := None; p_prio := 200; p_static := false |} |}.
+Proof.
+  split; [exact numeric_empty|]. split; [apply sorted_nil|]. split; [constructor|].
+  split; unfold rel_ok; cbn [r_plugin r_device r_input r_port r_settings p_uni p_prio];
+    repeat split; try reflexivity; try discriminate; try exact I; cbn; intuition discriminate.
+Qed.
+
+(* Crash atomicity over whole histories, from ANY directory (a hand-written or foreign settings
+   file, left-over temporaries) and any admissible store: edits, loads, restarts, completed saves,
+   saves cut short after any number of calls, saves whose writes fail (HSaveFail, any body of
+   successful / short / failing writes) and failing saves cut short.  One step: no impossible
+   system call; the store stays admissible; what a new process would load is what it would have
+   loaded before the step or - only for a (possibly cut short) ordinary save - the complete store
+   that save was given. *)
+Theorem c18_history2_step : forall st o,
+  inv2 st -> hop_ok o ->
+  exists st', run_hop st o = Done st' /\ inv2 st' /\
+    (restart (disk st') = restart (disk st) \/
+     (restart (disk st') = mem st /\
+      match o with HBase OSave | HBase (OCrashSave _) => True | _ => False end)) /\
+    match o with HBase OSave => restart (disk st') = mem st /\ mem st' = mem st | _ => True end.
+Proof. exact run_hop_spec. Qed.
+Print Assumptions c18_history2_step.
+
+(* Whole histories: at the end a new process loads the complete settings the directory held at the
+   start, or one of the complete stores that some (completed or interrupted) save of the history
+   was given - never a partial file, never a mixture. *)
+Theorem c18_history_any_directory : forall h st,
+  inv2 st -> Forall hop_ok h ->
+  exists st' tried, run_hops st h [] = Some (st', tried) /\ inv2 st' /\
+    (restart (disk st') = restart (disk st) \/ In (restart (disk st')) tried).
+Proof. exact history_persisted. Qed.
+Print Assumptions c18_history_any_directory.
+
+Example c18_history2_hypotheses_satisfiable :
+  inv2 {| mem := [([107], [97; 61; 98])];
+          disk := {| f_conf := Some [103; 97; 114; 98; 97; 103; 101; 10; 61; 61]; f_tmp := Some [1; 2; 3] |} |} /\
+  hop_ok (HCrashFail [SWrite Tmp [107; 32]; SWriteFail Tmp; SWrite Tmp [61]] 3) /\
+  hop_ok (HBase (OCrashSave 2)).
+Proof.
+  split; [split; [repeat constructor|]|split; [repeat constructor|exact I]].
+  constructor; [|constructor]. split; repeat split; cbn; intuition discriminate.
+Qed.
+
+(* The typed entry points - SetValue(key, unsigned int), SetValue(key, int), SetMultipleValue(key,
+   unsigned int), SetValueAsBool / GetValueAsBool - write admissible values, so what they store
+   survives save and reload under every admissible key: the boolean, the number (every value below
+   10^20, i.e. every unsigned int), the signed decimal text. *)
+From C18 Require Import ProofsTyped.
+Theorem c18_typed_values : forall k m,
+  sorted m -> map_ok m -> key_ok k ->
+  (forall b, get_value_bool k (load_bytes (save_bytes (set_value_bool k b m))) = b) /\
+  (forall n maxv, n < 10 ^ 20 ->
+     string_to_uint maxv (get_value k (load_bytes (save_bytes (set_value_uint k n m)))) =
+     if n <=? maxv then PVal n else PReject) /\
+  (forall z, get_value k (load_bytes (save_bytes (set_value_int k z m))) = dec_z z) /\
+  (s_true, s_false) = (G_s_true, G_s_false).
+Proof.
+  intros k m Hs Hm Hk. split; [intros b; apply bool_roundtrip; assumption|].
+  split; [intros n maxv Hn; apply uint_roundtrip; assumption|].
+  split; [intros z; apply int_roundtrip; assumption|reflexivity].
+Qed.
+Print Assumptions c18_typed_values.
